@@ -173,6 +173,8 @@ def rand_note(rng, *, hostile=0.5, allow_grace=True, allow_acc=True, allow_displ
         dots = 0 if rng.random() < 0.7 else dots
     if allow_nodur and allow_grace and chord_has_acc is None and rng.random() < 0.03:
         dur, dots, grace, fixed_pre = None, 0, '', 'q'
+    elif allow_nodur and chord_has_acc is None and rng.random() < 0.03:
+        dur, dots, grace, fixed_pre = None, 0, '', ''      # a bare pitch: a note cell without any duration ('c', 'GG#L')
     acc = ''
     if allow_acc and rng.random() < 0.4:
         acc = rng.choice(['#', '-', '#', '-', 'n', '##', '--', '###', '---'] if hostile > 0.3 else ['#', '-', 'n'])
